@@ -416,6 +416,10 @@ class BaseOdeModel(object):
         else:
             raise InputError("Expecting a list")
 
+        # a state added without declared limits has the default lower limit of zero
+        state_lims = list(getattr(self, '_state_lims', []))
+        self._state_lims = state_lims + [(0, None)]*(len(self._stateList) - len(state_lims))
+
         self._hasNewTransition.trip()
 
     @property
@@ -799,8 +803,13 @@ class BaseOdeModel(object):
             # else:
             #     raise InputError("Input type should either be a string or list")
 
-            self._state_lims=lim_list                           # TODO: maybe assigning limits via a dict is tidier/safer
-            self.__setattr__(attr_list_name, list(attr_list))
+            # one declaration can expand to several states (e.g. 'y1:4'):
+            # every state it expands to carries the limits of its declaration
+            state_lims=[]
+            for att, lim in zip(list(attr_list), lim_list):
+                self.__setattr__(attr_list_name, [att])
+                state_lims+=[lim]*(len(self._stateList) - len(state_lims))
+            self._state_lims=state_lims                         # TODO: maybe assigning limits via a dict is tidier/safer
 
         else:
             raise InputError("No attribute passed to function")
